@@ -8,6 +8,7 @@ package simsync
 import (
 	"bytes"
 	"fmt"
+	"io"
 	"runtime"
 	"sort"
 	"strconv"
@@ -132,6 +133,8 @@ type World struct {
 	// Invariant is evaluated on the scheduler goroutine at every step, with
 	// all tasks parked. It must not block and must not call instrumented code.
 	Invariant func() string
+	// TraceOut, if set, receives one line per scheduler step (debugging aid)
+	TraceOut io.Writer
 	// EveryStep hooks (cheap probes)
 	OnStep func()
 	// OnIdle is evaluated at every quiescent moment: no task runnable and no
@@ -500,6 +503,13 @@ func (w *World) Run(done func() bool) End {
 		if idx != 0 || param != 0 {
 			w.Trace = append(w.Trace, Decision{Step: w.Steps, Anchor: opts[0].AnchorStr(), Key: o.Key, Param: param})
 			w.NonDef++
+		}
+		if w.TraceOut != nil {
+			site := ""
+			if o.Task != nil {
+				site = o.Task.Site
+			}
+			fmt.Fprintf(w.TraceOut, "step %d t=%v %s %s (of %d options)\n", w.Steps, time.Since(w.Start), o.Key, site, len(opts))
 		}
 		w.Steps++
 		w.ClassN[o.Class]++
